@@ -196,6 +196,15 @@ class Ctx:
         o.detail = detail
         return o
 
+    def floor(self, o, have, confirmed, what="sites", sample=None):
+        """instance counts fail closed at zero (a rule matching nothing passes vacuously for ever); fewer instances than were
+        confirmed on the reference tree are reported as undecided, because merging two sites into one is a legitimate edit"""
+        if have <= 0:
+            return self.bad(o, "no %s found (%d were confirmed by hand): the rule lost sight of what it checks" % (what, confirmed), None, sample)
+        if have < confirmed:
+            return self.undecided(o, "%d %s found, %d were confirmed on the reference tree (sites may have been merged)" % (have, what, confirmed))
+        return self.ok(o, "%d %s" % (have, what), sample)
+
     def decide(self, o, cond, ok_detail="", bad_detail="", loc=None, sample=None):
         if cond:
             return self.ok(o, ok_detail, sample)
